@@ -91,8 +91,11 @@ def html_taint(ctx, cfg, fs):
         good = ('<', '&lt;') in seen and ('>', '&gt;') in seen and chunk
         ctx.ob('T.html-taint', 'render_html:escaped-chunk', good, 'the text appended is a splitter chunk passed through %s' % seen, where=c.where(), cfg=cfg)
 
-def tags_of(s):
-    return re.findall(r'<(/?)([a-zA-Z]+)', s)
+STYLE_TAGS = {'b', 'i', 'tt'}
+
+def tags_of(s, structural=False):
+    ts = re.findall(r'<(/?)([a-zA-Z]+)', s)
+    return [t for t in ts if not (structural and t[1] in STYLE_TAGS)]
 
 def arm_consts(b, sw, variant, res_pushes):
     blocks = arm_blocks(b, sw, variant)
@@ -170,7 +173,7 @@ def html_tags(ctx, cfg, fs):
                             elif rs and all(r.kind == 'const' and isinstance(r.what, str) for r in rs) and len({r.what for r in rs}) == 1:
                                 txt = rs[0].what
                             if txt is not None:
-                                out += ['%s%s' % ('/' if sl else '', n) for (sl, n) in tags_of(txt) if n != 'br']
+                                out += ['%s%s' % ('/' if sl else '', n) for (sl, n) in tags_of(txt, structural=True) if n != 'br']
                             else:
                                 out.append('<dyn>')
                         if c.is_(r'Vec::<buffer::Block>::(push|pop)$'): order.append(c.name.split('::')[-1])
@@ -198,7 +201,15 @@ def html_tags(ctx, cfg, fs):
     ok = so <= {'|push', '|last,push'} and eo <= {'|pop', '|pop,last'} and bool(so) and bool(eo)
     ctx.ob('G.html-tags', 'render_html:itembody-same-test', ok, 'BlockStart reads the top of the stack before its single push (%s); BlockEnd reads it after its single pop (%s): the dd/li choice sees the same enclosing block both times' % (sorted(so), sorted(eo)), where=b.where(), cfg=cfg)
     # change_style
-    cs = ctx.look(fs.one(r'^buffer::html::change_style$'))
+    # the style-transition function: whichever function of the html module pushes both </tt> and <tt> (it may have been
+    # renamed, turned into a method, or - being new to the audit - inlined into its callers, where its own body is kept aside)
+    def pushes_tt(x):
+        vals = {r.what for c in x.calls() if c.is_(r'^std::string::String::push_str$') for r in provenance(x, c.args[1], c.bb, 'term') if r.kind == 'const'}
+        return '</tt>' in vals and '<tt>' in vals
+    cands = [x for x in list(fs.inlined_bodies.values()) + list(fs.bodies.values()) if x.kind != 'closure' and re.search(r'buffer::html::', x.path) and not re.search(r'render_(html|markdown)$', x.path) and pushes_tt(x)]
+    if len(cands) != 1:
+        raise Broken('html: expected one style-transition function pushing </tt> and <tt>, found %s' % [x.path for x in cands])
+    cs = ctx.look(cands[0])
     ps = [c for c in cs.calls() if c.is_(r'^std::string::String::push_str$')]
     import functools
     ps = sorted(ps, key=functools.cmp_to_key(lambda x, y: -1 if cs.reaches(x.bb, [y.bb]) and x.bb != y.bb else (1 if cs.reaches(y.bb, [x.bb]) and x.bb != y.bb else 0)))
@@ -209,19 +220,21 @@ def html_tags(ctx, cfg, fs):
     closes = [s for s in seq if s.startswith('</')]; opens = [s for s in seq if not s.startswith('</')]
     ok = [s[2:-1] for s in closes] == list(reversed([s[1:-1] for s in opens])) and len(closes) == 3 and seq == closes + opens
     ctx.ob('G.html-tags', 'change_style:nesting-order', ok, 'change_style closes %s and then opens %s (reverse nesting order)' % (closes, opens), where=cs.where(), cfg=cfg)
-    # each guarded by its own flag
-    good = True
+    # each guarded by its own flag: closing tags by the flags of ONE parameter (the style in force), opening tags by the flags
+    # of ANOTHER one (the style wanted), the flag named after the tag
+    good = True; guards = {'close': set(), 'open': set()}
     for c in ps:
         tag = [r.what for r in provenance(cs, c.args[1], c.bb, 'term') if r.kind == 'const'][0]
         name = {'i': 'italic', 'b': 'bold', 'tt': 'mono'}[tag.strip('</>')]
-        who = 'cur' if tag.startswith('</') else 'new'
         g = False
         for sw in switches(cs):
             if sw.kind == 'bool' and only_via_edge(cs, sw.b, sw.target(True), c.bb):
-                if any(r.kind == 'param' and r.what == who and r.path[-1:] == [name] for r in sw.roots):
-                    g = True
+                for r in sw.roots:
+                    if r.kind == 'param' and r.path[-1:] == [name]:
+                        g = True; guards['close' if tag.startswith('</') else 'open'].add(r.what)
         good &= g
-    ctx.ob('G.html-tags', 'change_style:guards', good, 'every closing tag is guarded by the current style flag and every opening tag by the new style flag of the same name: %s' % good, where=cs.where(), cfg=cfg)
+    good &= len(guards['close']) == 1 and len(guards['open']) == 1 and guards['close'] != guards['open']
+    ctx.ob('G.html-tags', 'change_style:guards', good, 'every closing tag is guarded by the flag of the same name of the style in force (%s) and every opening tag by that of the style wanted (%s): %s' % (sorted(guards['close']), sorted(guards['open']), good), where=cs.where(), cfg=cfg)
 
 PAIR_EXCEPTIONS = {'meta_help::write_help_item': 'GroupStart opens Block+DefinitionList that GroupEnd closes; the arms are emitted in matched pairs by append_meta (G.group-flag in C04)'}
 
